@@ -380,8 +380,16 @@ func renderModule(ms *ModSet, m *gmModule, r *prng.R) string {
 				pub = "öffentliche "
 			}
 			marker := fmt.Sprintf("init %s:%s", tag, v.Name)
-			fmt.Fprintf(&b, "Die %sZahl %s ist (melde \"%s\").\n", pub, v.Name, marker)
+			// several declarations on one line now and then: source order is (line, column), not line alone
+			sep := "\n"
+			if r.Chance(0.3) {
+				sep = " "
+			}
+			fmt.Fprintf(&b, "Die %sZahl %s ist (melde \"%s\").%s", pub, v.Name, marker, sep)
 			ms.InitOf[m.Idx] = append(ms.InitOf[m.Idx], marker)
+		}
+		if s := b.String(); !strings.HasSuffix(s, "\n") {
+			b.WriteString("\n")
 		}
 	}
 	emitVars(0)
